@@ -12,6 +12,21 @@ META = {
 }
 
 
+def shutdown_traces(ctx, runs):
+    """The recorded shutdown of every restart run against the close protocol (NsqdShutdown / NsqdShutdownTrace)."""
+    import os
+    todo = [r["trace"] for r in runs if r.get("trace") and not r.get("inconclusive") and os.path.exists(r["trace"])]
+    if not todo:
+        return
+    allp = os.path.join(ctx.scratch, "shutdown-all.ndjson")
+    with open(allp, "w") as out:
+        for t in todo:
+            with open(t) as f:
+                out.write(f.read())
+    ctx.validate_trace("NsqdShutdownTrace", "NsqdShutdownTrace.cfg", allp, len(todo), "shutdown-protocol", timeout=1800,
+                       key="trace:shutdown-protocol")
+
+
 def exit_storm(ctx, trials):
     """A shutdown request while topics / channels are being created and ephemeral ones removed: it must complete.
     One trial per child process (a panic of the in-process daemon is the observation); the schedule is the Go
@@ -56,12 +71,20 @@ def exit_storm(ctx, trials):
 
 
 def run(ctx):
+    # the close protocol with message accounting, and the variant that returns a channel-close error before the
+    # topic's own flush (must be refuted)
+    ctx.model_check("NsqdShutdown", "NsqdShutdown_mc.cfg", timeout=600)
+    r = ctx.tlc("NsqdShutdown", "NsqdShutdown_abort.cfg", timeout=600, label="abort-on-close-error (expected: violated)")
+    if not r.violated:
+        from vlib import Inconclusive
+        raise Inconclusive("NsqdShutdown_abort.cfg is not refuted")
     # A': shutdown-at-point. TLC enumerates the schedules, the replayer forces them, restarts, and drains.
     pairs.run_pairs(ctx, "C05", pairs=[(x, "EXIT") for x in pairs.EXIT_PARTNERS])
     # B: random histories, shutdown at a random moment, restart, drain, ledger over both lifetimes
     n = 24 if ctx.quick else 300
     runs = corelib.drive(ctx, "restart", n)
     ok = corelib.ledger(ctx, "C05", runs)
+    shutdown_traces(ctx, runs)
     ctx.cov["evaluations"] += sum(r.get("events", 0) for r in runs)
     ctx.cov["traces_validated_against_impl"] += 0
     ctx.notes["restart_runs"] = len(runs)
